@@ -23,8 +23,10 @@ REPO = "/repo"
 M = []
 
 
-def mutant(name, props, edits, note=""):
-    M.append(dict(name=name, props=props, edits=edits, note=note))
+def mutant(name, props, edits, note="", quiet=()):
+    """props: checks that must report a violation; quiet: checks that must stay quiet
+    (behaviour-preserving or legitimate changes: alarming on them would be a false alarm)."""
+    M.append(dict(name=name, props=props, edits=edits, note=note, quiet=list(quiet)))
 
 
 # ---- C07 / C06 / C09 -------------------------------------------------------
@@ -332,6 +334,72 @@ mutant("in-port-no-warning", ["C18"], [("internal/tinycpm/tinycpm.go", """	io.wa
 mutant("bdos-clobbers-stack-on-long-string", ["C18"], [("internal/tinycpm/tinycpm.go", """	0x00, 0xc9, 0x1a, 0xfe, 0x24, 0xc8, 0xd3, 0x00, 0x13, 0x18, 0xf7,""", """	0x00, 0xc9, 0x1a, 0xfe, 0x24, 0xc8, 0xd3, 0x00, 0x1c, 0x18, 0xf7,""")], note="INC E instead of INC DE: strings crossing a 256-byte page repeat/print garbage")
 
 
+# ---- C13 -------------------------------------------------------------------
+mutant("run-no-deferred-cancel", ["C13"], [("cpu.go", """	ctx2, cancel := context.WithCancel(ctx)
+	defer cancel()""", """	ctx2, cancel := context.WithCancel(ctx)
+	_ = cancel""")], note="watcher goroutine leaks on every normal return")
+mutant("watcher-waits-on-parent", ["C13"], [("cpu.go", """		<-ctx2.Done()
+		ctxErr = ctx.Err()""", """		_ = ctx2
+		<-ctx.Done()
+		ctxErr = ctx.Err()""")], note="watcher waits on the caller's context: leaks when that is never cancelled")
+mutant("flag-published-before-error", ["C13"], [("cpu.go", """		ctxErr = ctx.Err()
+		atomic.StoreInt32(&canceled, 1)""", """		atomic.StoreInt32(&canceled, 1)
+		ctxErr = ctx.Err()""")], note="hand-off publishes the flag before storing the error: Run may return nil")
+mutant("no-cancel-check-without-breakpoints", ["C13"], [("cpu.go", """	cpu.HALT = false
+	for {
+		if atomic.LoadInt32(&canceled) != 0 {
+			return ctxErr
+		}""", """	cpu.HALT = false
+	if cpu.BreakPoints == nil {
+		// fast path
+		for !cpu.HALT {
+			cpu.Step()
+		}
+		return nil
+	}
+	for {
+		if atomic.LoadInt32(&canceled) != 0 {
+			return ctxErr
+		}""")], note="breakpoint-free fast loop never looks at the cancellation flag")
+mutant("cancel-check-every-2pow20-steps", ["C13"], [("cpu.go", """	cpu.HALT = false
+	for {
+		if atomic.LoadInt32(&canceled) != 0 {
+			return ctxErr
+		}""", """	cpu.HALT = false
+	for n := uint32(0); ; n++ {
+		if n&0xfffff == 0 && atomic.LoadInt32(&canceled) != 0 {
+			return ctxErr
+		}""")], note="flag polled every 1M Steps: exceeds the generous bound (65536 Steps)")
+mutant("cancel-check-every-64-steps", [], quiet=["C13", "C08"], edits=[("cpu.go", """	cpu.HALT = false
+	for {
+		if atomic.LoadInt32(&canceled) != 0 {
+			return ctxErr
+		}""", """	cpu.HALT = false
+	for n := uint32(0); ; n++ {
+		if n&0x3f == 0 && atomic.LoadInt32(&canceled) != 0 {
+			return ctxErr
+		}""")], note="LEGITIMATE optimisation (poll every 64 Steps): must NOT alarm; listed with no property to document that")
+mutant("returns-derived-context-error", [], quiet=["C13"], edits=[("cpu.go", """		<-ctx2.Done()
+		ctxErr = ctx.Err()""", """		<-ctx2.Done()
+		ctxErr = ctx2.Err()""")], note="returns the derived context's error: same value for std contexts, Canceled instead of DeadlineExceeded? (no: propagated) - expected equivalent, should not alarm unless SimCtx error differs")
+mutant("worker-goroutine-runs-steps", ["C13"], [("cpu.go", """	cpu.HALT = false
+	for {
+		if atomic.LoadInt32(&canceled) != 0 {
+			return ctxErr
+		}
+		cpu.Step()""", """	cpu.HALT = false
+	for {
+		if atomic.LoadInt32(&canceled) != 0 {
+			return ctxErr
+		}
+		if ctx.Err() != nil {
+			// context already dead: finish the current "slice" in the background
+			go func() { cpu.Step() }()
+			return ctx.Err()
+		}
+		cpu.Step()""")], note="Run returns while a goroutine still steps the CPU")
+
+
 def run(cmd, **kw):
     return subprocess.run(cmd, stdout=subprocess.PIPE, stderr=subprocess.STDOUT, text=True, **kw)
 
@@ -376,6 +444,14 @@ def main():
                 if not caught and p.returncode not in (0, 1):
                     print(p.stdout[-1500:])
                 results.append((m["name"] + "/" + prop, "CAUGHT" if caught else "MISSED"))
+            for prop in m["quiet"]:
+                e = dict(os.environ, VERIF_REPO=scratch)
+                p = run([os.path.join(VERIF, "run.sh"), prop, "quick"], env=e)
+                ok = p.returncode == 0 and "VIOLATION" not in p.stdout
+                print("%-40s %s %-7s (must stay quiet)" % (m["name"], prop, "QUIET" if ok else "FALSE-ALARM(rc=%d)" % p.returncode), flush=True)
+                if not ok:
+                    print(p.stdout[-1500:])
+                results.append((m["name"] + "/" + prop, "CAUGHT" if ok else "FALSE-ALARM"))
         finally:
             shutil.rmtree(d, ignore_errors=True)
             # replays of mutants are not evidence about /repo
